@@ -126,10 +126,6 @@ func newProcess(m Mode) {
 	match.VerifResetGlobals()
 	difflib.VerifResetGlobals()
 	colors.NOCOLOR = nc
-	testsRegistry = newRegistry()
-	standaloneTestsRegistry = newStandaloneRegistry()
-	testEvents = newTestEvents()
-	skippedTests = newSyncSlice()
 	setMode(m)
 }
 
